@@ -848,3 +848,17 @@ CONTRACTS[CI + 'CliffordLayer.independent_from'] = dict(
              'self.gates[k].qubits[i] != other_gate.qubits[j]))))'],
     modifies=[], returns='bool',
 )
+
+# ------------------------------------------------------------------ C15: monomials (a Pauli operator with a coefficient)
+_same_mono = ['len(result.g) == len(self.g)', 'forall(c_, 0, len(self.g), result.g[c_] == self.g[c_])', 'result.p == self.p']
+CONTRACTS[PA + 'PauliMonomial.__neg__'] = dict(
+    params=[('self', PMONO)], requires=[], ensures=_same_mono + ['result.c == cneg(self.c)'], modifies=[], returns=PMONO)
+CONTRACTS[PA + 'PauliMonomial.__rmul__'] = dict(
+    params=[('self', PMONO), ('c', 'cplx')], requires=[], ensures=_same_mono + ['result.c == cmul(c, self.c)'], modifies=[], returns=PMONO)
+CONTRACTS[PA + 'PauliMonomial.copy'] = dict(
+    params=[('self', PMONO)], requires=[], ensures=_same_mono + ['result.c == self.c', 'fresh_loc(result.g)'], modifies=[], returns=PMONO)
+CONTRACTS[PA + 'PauliMonomial.as_polynomial'] = dict(
+    params=[('self', PMONO)], requires=[],
+    ensures=['rows(result.gs) == 1', 'cols(result.gs) == len(self.g)', 'len(result.ps) == 1', 'len(result.cs) == 1',
+             'forall(c_, 0, len(self.g), result.gs[0][c_] == self.g[c_])', 'same(result.gs[0], self.g)', 'result.ps[0] == self.p', 'result.cs[0] == self.c'],
+    modifies=[], returns=POLY)
